@@ -409,6 +409,138 @@ def gen_run_lines(r, n, U):
     return lines
 
 
+# ------------------------------------------------------------------------------------------------
+# correspondence stream norm-run-shaper: the normalizer under a shaper record that has a `reorder_marks` callback
+# (hook verif::normalize::normalize_shaper, model NormMarks.lean); added after the seeded change C01h
+
+MODELLED_SHAPERS = ["arabic", "default"]      # the records Drv/NormMarks.lean carries; the others answer `unmodelled`
+
+
+def shaper_marks(shim, U):
+    """marks the callback distinguishes, read from the crate: the modifier combining marks (`normsh consts`), the other
+    marks of the two classes it scans for, marks of smaller / larger classes (crate's modified classes)"""
+    t = vlib.run_lines(shim, ["normsh consts"], nproc=1)[0].split()
+    cc = [int(t[0]), int(t[2])]
+    mods = [int(x) for x in t[5].split(",")]
+    arab = [c for c in sorted(U.marks) if (0x600 <= c <= 0x6FF or 0x8A0 <= c <= 0x8FF or 0x700 <= c <= 0x74F) and c not in U.vs]
+    return {"cc": cc, "mods": mods, "cap": int(t[4]),
+            "mods_by": {k: [m for m in mods if U.mcc.get(m, 0) == k] for k in cc},
+            "same": {k: [c for c in arab + [0x301, 0x323, 0x300, 0x331] if U.mcc.get(c, 0) == k and c not in mods] for k in cc},
+            "lower": [c for c in arab if 0 < U.mcc.get(c, 0) < cc[0]],
+            "between": [c for c in sorted(U.marks) if cc[0] < U.mcc.get(c, 0) < cc[1] and c < 0x3000][:8],
+            "higher": [c for c in sorted(U.marks) if U.mcc.get(c, 0) > cc[1] and c < 0x3000][:4],
+            "zero": [c for c in arab if U.mcc.get(c, 0) == 0][:6] + [0x34F],
+            "bases": [0x628, 0x627, 0x644, 0x710, 0x61, 0x20, 0x25CC, 0x622]}
+
+
+def shaper_text(r, M, U):
+    """one or more base + mark-run clusters aimed at reorder_marks: runs of modifier marks of one class — short, and of 31..34
+    (around the cap) — after marks of lower classes, mixed with non-modifier marks of the same class, both classes in one
+    run, marks of other classes in between; the run at the very start of the buffer; several runs"""
+    t = []
+    for _ in range(r.choice([1, 1, 1, 2, 3])):
+        if not (not t and r.chance(1, 6)):
+            t.append(r.choice(M["bases"]))
+        run = []
+        k = r.below(10)
+        near_cap = k >= 7
+        total = r.choice([M["cap"] - 1, M["cap"], M["cap"] + 1, M["cap"] + 2]) if near_cap else r.range(1, 9)
+        for c in (M["cc"] if r.chance(2, 3) else [r.choice(M["cc"])]):
+            pool = M["mods_by"].get(c) or M["mods"]
+            n = total if near_cap and r.chance(1, 2) else r.range(0, min(total, 6))
+            pat = r.below(4)
+            for j in range(n):
+                if pat == 0: run.append(pool[0])
+                elif pat == 1: run.append(r.choice(pool))
+                elif pat == 2: run.append(r.choice(pool) if r.chance(4, 5) else r.choice(M["same"][c] or pool))
+                else: run.append(r.choice(pool + M["same"][c]))
+        extra = []
+        for _ in range(r.below(4)):
+            q = r.below(8)
+            extra.append(r.choice(M["lower"]) if q < 3 and M["lower"] else r.choice(M["between"]) if q == 3 and M["between"] else
+                         r.choice(M["higher"]) if q == 4 and M["higher"] else r.choice(M["zero"]) if q == 5 else
+                         r.choice(M["mods"]))
+        k2 = r.below(4)
+        if k2 == 0: run = extra + run
+        elif k2 == 1: run = run + extra
+        elif k2 == 2: run = r.shuffle(run + extra)
+        while near_cap and len(run) > total and r.chance(1, 2):
+            run.pop()
+        if near_cap and len(run) < total:
+            run += [r.choice(M["mods"]) for _ in range(total - len(run))]
+        t += run
+    return [c for c in t if c not in U.vs] or [0x628, M["mods"][0]]
+
+
+def gen_shaper_run_lines(r, n, U, shim):
+    M = shaper_marks(shim, U)
+    lines = []
+    for _ in range(n):
+        text = shaper_text(r, M, U)
+        if r.chance(1, 10):
+            text = add_selectors(r, text, U, pools(U))
+        groups = rand_support(r, text, U)
+        clusters = rand_clusters(r, text, U)
+        masks = [0] * len(text) if r.chance(1, 2) else [r.choice([0, 1, 2, 3, 7, 0x80000000, 0x80000005]) for _ in text]
+        uvs = rand_uvs(r, text, U)
+        f = build_font(groups, uvs)
+        tt = ",".join(f"{c}:{cl}:{m}" for c, cl, m in zip(text, clusters, masks))
+        sh = r.choice(["arabic"] * 5 + ["default"])
+        lines.append(f"normsh run {sh} {r.below(2)} {r.below(2)} {r.choice(['-', '-', '3'])} - {f.hex()} {cmap_spec(groups)} "
+                     f"{uvs_spec(uvs)} {tt}")
+    return lines
+
+
+def canon_shaper_run(x):
+    return "panic" if x.startswith("panic") else x
+
+
+def classify_shaper_run(ln, out):
+    t = ln.split()
+    ks = ["shaper:" + t[2], "reply:" + out.split()[0]]
+    inp = [x[0] for x in parse_text_tok(t[10])]
+    best = cur = 0
+    for c in inp:
+        cur = cur + 1 if unicodedata.combining(chr(c)) else 0
+        best = max(best, cur)
+    ks.append("longest-mark-run:" + ("1-8" if best <= 8 else "9-30" if best <= 30 else str(best) if best <= 34 else ">34"))
+    if out.startswith("ok"):
+        # a mark whose class is one of the two the callback renumbers to (no input mark of this stream has them)
+        his = {x.split(":")[5] for x in out.split()[3:] if x.split(":")[4] == "1"}
+        if his & {"25", "26"} and t[2] != "default": ks.append("callback-moved-a-run")
+    return ks
+
+
+def promote_shaper_disagreements(ctx, shim, dis, limit):
+    """a `norm-run-shaper` request on which the crate PANICS is handed to shape() under a script of that shaper (asked from
+    the crate) on the request's own font: a panic there is a failing input of the property"""
+    cands = [d for d in dis if d["impl"].startswith("panic")][:limit]
+    n = bad = 0
+    if cands:
+        tags = ["Arab", "Syrc", "Hebr", "Latn"]
+        names = vlib.run_lines(shim, [f"shaper {int.from_bytes(t.encode(), 'big')} 1 -" for t in tags], nproc=1)
+        for d in cands:
+            t = d["request"].split()
+            tag = next((tg for tg, nm in zip(tags, names) if nm == t[2]), None)
+            if tag is None:
+                continue
+            text = [x[0] for x in parse_text_tok(t[10])]
+            grp = [f"font p {t[7]}", f"shape p r {tag} - 0 {t[4]} - - - " + ",".join(f"{c:x}:{i}" for i, c in enumerate(text))]
+            o = vlib.run_groups(shim, [grp], nproc=1)[0]
+            n += 1
+            reply = o[1] if len(o) > 1 else "abort"
+            if not reply.startswith("ok"):
+                bad += 1
+                if bad <= 2:
+                    ctx.violation(f"normalization panics: text {['%04X' % c for c in text]} under the {t[2]} shaper (script {tag}): "
+                                  f"{reply[:160]}",
+                                  {"stage": "search", "stream": "promoted-norm-run-shaper", "font_line": grp[0], "request": grp[1],
+                                   "hook_request": d["request"], "observed": reply[:300]})
+    ctx.note_search("promoted-norm-run-shaper", n, n, deviations=bad, disagreements=len(dis),
+                    rule="norm-run-shaper requests on which the crate panics, handed to shape() with the script of that shaper on "
+                         "the request's own font; oracle: shape() returns")
+
+
 def parse_text_tok(tok):
     return [tuple(int(x) for x in t.split(":")) for t in tok.split(",")]
 
@@ -1539,8 +1671,9 @@ def run(ctx):
         "the crate by the norm-run correspondence stream (hook verif::normalize::normalize on a bare buffer, default "
         "shaper, normalization preference 0..4, cluster level 0/1)",
         "clusters containing a variation selector are modelled (handle_variation_selector_cluster, cmap format 14 as a "
-        "parameter); cluster level 2 and shapers that override compose/decompose or reorder_marks (Hebrew, Arabic, "
-        "Indic, USE, ...) are outside the model",
+        "parameter); cluster level 2 and shapers that override compose/decompose (Hebrew, Indic, USE, ...) are outside the "
+        "model; the Arabic shaper's reorder_marks callback is modelled (NormMarks.lean, stream norm-run-shaper through the hook "
+        "verif::normalize::normalize_shaper), Hebrew's is not",
         "Unicode data are the crate's own tables (Gen/Norm.lean, dumped through hooks); the reference (Gen/NormRef.lean) "
         "is CPython unicodedata %s restricted to characters assigned there" % unicodedata.unidata_version,
     ]
@@ -1552,6 +1685,9 @@ def run(ctx):
                    classify=lambda ln, out: [ln.split()[1] + (":none" if out == "-" else "") +
                                              (":" + out if ln.split()[1] == "depth" else "")])
     dis = ctx.correspond("norm-run", lines=gen_run_lines(ctx.rng("run"), ctx.budget(30000, 400000), U), classify=classify_run)
+    sdis = ctx.correspond("norm-run-shaper", lines=gen_shaper_run_lines(ctx.rng("run-shaper"), ctx.budget(8000, 100000), U, shim),
+                          classify=classify_shaper_run, canon=canon_shaper_run)
+    promote_shaper_disagreements(ctx, shim, sdis, 20)
     RD, RC = ref_tables()
     replay_known(ctx, shim)
     search_cap(ctx, shim)
@@ -1604,11 +1740,17 @@ def replay(ctx, rp):
         for q, o in zip(reqs, outs):
             print(q, "->", o)
         return 1 if any(o != "-" for o in outs) else 0
+    if rp.get("stream") == "promoted-norm-run-shaper":
+        o = vlib.run_groups(shim, [[rp["font_line"], rp["request"]]], nproc=1)[0]
+        print("request:", rp["request"]); print("reply  :", o[1] if len(o) > 1 else "abort")
+        return 0 if len(o) > 1 and o[1].startswith("ok") else 1
     if "request" in rp:
         model = vlib.build_model()
         a = vlib.run_lines(shim, [rp["request"]], nproc=1)[0]
         b = vlib.run_lines(model, [rp["request"]], nproc=1)[0]
         print("impl :", a); print("model:", b)
+        if rp["request"].startswith("normsh "):
+            a = canon_shaper_run(a)
         return 0 if a == b else 1
     for b in rp.get("broken", []):
         for d in b.get("smallest", [])[:3]:
